@@ -3928,7 +3928,11 @@ def repartition(array, lengths, highlevel=True, behavior=None):
         stops = []
         for x in lengths:
             total_length += x
-            stops.append(total_length)
+            if x != 0:
+                # zero-length partitions are dropped (as IrregularlyPartitionedArray does)
+                stops.append(total_length)
+        if len(stops) == 0:
+            stops = [0]
 
         if total_length != len(layout):
             raise ValueError(
